@@ -138,6 +138,13 @@ func verifMax(a, b int) int {
 }
 
 func verifSubject(vm *Otto) (string, []uint16) {
+	if verifParam("astral", 0) == 2 {
+		// any single astral code point: 4 symbolic bytes forming valid UTF-8
+		s := verifNondetString(4)
+		verifAssume(s[0] >= 0xF0 && verifValidUTF8(s))
+		vm.Set("s", s)
+		return s, refUnits(s)
+	}
 	if verifParam("astral", 0) == 1 {
 		// 0..1 symbolic ASCII bytes, a fixed astral character (a surrogate pair
 		// in UTF-16), 0..1 symbolic ASCII bytes
